@@ -1,6 +1,6 @@
 """Build layer: compiles /repo's current working tree (never its make objects) into /verif/build/<variant>/<treehash>/.
 Variants are sanitizer / knob combinations; harnesses are single C files under /verif/h linked against a variant."""
-import os, sys, glob, hashlib, subprocess, shutil, fcntl, time
+import time, os, sys, glob, hashlib, subprocess, shutil, fcntl, time
 from concurrent.futures import ThreadPoolExecutor
 
 VERIF = os.path.dirname(os.path.dirname(os.path.abspath(__file__)))
@@ -126,8 +126,11 @@ def build_lib(variant):
         # drop stale trees of this variant (disk): keep the 3 most recently used besides the one being built
         olds = [o for o in glob.glob(os.path.join(BUILD, variant, '*')) if os.path.isdir(o) and o != d]
         olds.sort(key=lambda o: os.path.getmtime(o), reverse=True)
+        # ... and never a tree used in the last hours: a check running concurrently on another tree (seeded-change matrix, thorough tier) still executes from it
+        minAge = float(os.environ.get('VERIF_BUILD_MIN_AGE_H', '5')) * 3600
         for old in olds[int(os.environ.get('VERIF_KEEP_BUILDS', '3')):]:
-            shutil.rmtree(old, ignore_errors=True)
+            if time.time() - os.path.getmtime(old) > minAge:
+                shutil.rmtree(old, ignore_errors=True)
         od = os.path.join(d, 'obj')
         os.makedirs(od, exist_ok=True)
         defs = v.get('defs', COMMON_DEFS)
